@@ -1381,6 +1381,14 @@ impl<'ast> LoweringContext<'ast> {
             ast::CustomType::Enum(enm) => {
                 let tcx_id = self.lookup_id.resolve_enum(enm).expect("enum is in env");
 
+                // Enums cross the FFI boundary by value, like structs: the backends declare
+                // `self` as the enum itself, so a `&self` receiver (which the macro compiles to a
+                // pointer parameter) cannot be honoured.
+                if self_param.reference.is_some() {
+                    self.errors.push(LoweringError::Other(format!("Method `{method_full_path}` takes a reference to an enum as a self parameter, which isn't allowed")));
+                    return Err(());
+                }
+
                 let attrs = self.attr_validator.attr_from_ast(
                     &self_param.attrs,
                     &Attrs::default(),
